@@ -3,6 +3,7 @@ package server
 import (
 	"context"
 	"errors"
+	"sync"
 
 	"github.com/feichai0017/NoKV/manifest"
 	"github.com/feichai0017/NoKV/pb"
@@ -22,6 +23,11 @@ type Service struct {
 	ids     *core.IDAllocator
 	tso     *tso.Allocator
 	storage pdstorage.Store
+
+	// persistMu makes "read both counters, write the checkpoint" one step, so
+	// checkpoints reach the store in the order of their reads and an older
+	// pair can never overwrite a newer one.
+	persistMu sync.Mutex
 }
 
 // NewService constructs a PD-lite service.
@@ -190,6 +196,9 @@ func (s *Service) persistAllocatorState() error {
 		return nil
 	}
 	verifhook.Yield(s, "pd.persist.enter")
+	verifhook.BeforeLock(&s.persistMu)
+	s.persistMu.Lock()
+	defer s.persistMu.Unlock()
 	return s.storage.SaveAllocatorState(s.ids.Current(), s.tso.Current())
 }
 
